@@ -165,7 +165,12 @@ Upd ==
   ELSE IF ev.ev = "tx" THEN
      /\ bout' = Put(bout, ev.a, Get(bout, ev.a, 0) + ev.n)
      /\ lastTx' = Put(lastTx, ev.a, ev.now)
-     /\ UNCHANGED <<phase, objAt, tokens, thread, proved, lastHeard, lastAny, sess, known, bin, everConn, stopAt, cstate, shutdownSeen, open, tempSince, lastCsend>>
+     \* a SERVER_HELLO is the server's answer to a hello it has just processed: if that hello came from another client than the one the address belonged to
+     \* (remembered under the negated address), the session at this address is that client's from now on
+     /\ LET promote == ev.ptype = 2 /\ (-ev.a) \in DOMAIN sess IN
+        /\ sess' = IF promote THEN Put(Del(Del(sess, ev.a), -ev.a), ev.a, sess[-ev.a]) ELSE sess
+        /\ proved' = IF promote THEN proved \ {ev.a} ELSE proved
+     /\ UNCHANGED <<phase, objAt, tokens, thread, lastHeard, lastAny, known, bin, everConn, stopAt, cstate, shutdownSeen, open, tempSince, lastCsend>>
   ELSE IF ev.ev = "h" THEN
      /\ thread' = ev.tid
      /\ shutdownSeen' = (ev.what = "shutdown")
@@ -197,7 +202,7 @@ Upd ==
      /\ UNCHANGED <<phase, objAt, tokens, thread, proved, lastHeard, lastAny, sess, known, lastTx, bin, bout, everConn, stopAt, shutdownSeen, tempSince>>
   ELSE IF ev.ev = "tick" THEN
      /\ known' = {ev.conns[i] : i \in DOMAIN ev.conns} \cup {ev.temps[i] : i \in DOMAIN ev.temps}
-     /\ sess' = [a \in (DOMAIN sess) \cap known' |-> sess[a]]
+     /\ sess' = [a \in {x \in DOMAIN sess : x \in known' \/ (-x) \in known'} |-> sess[a]]      \* (a remembered hello waits for the server's answer, which may come a tick later)
      \* (with no connected client the loop sleeps until the next datagram: the pool is only swept while the loop runs)
      /\ tempSince' = LET T2 == {ev.temps[i] : i \in DOMAIN ev.temps} IN [a \in T2 |-> IF a \in DOMAIN tempSince /\ ev.conns # <<>> THEN tempSince[a] ELSE ev.now]
      /\ UNCHANGED <<phase, objAt, tokens, thread, proved, lastHeard, lastAny, lastTx, bin, bout, everConn, stopAt, cstate, shutdownSeen, open, lastCsend>>
